@@ -382,7 +382,7 @@ class Translator:
         t = {'size_t': 'unsigned long', 'std::size_t': 'unsigned long', 'unsigned': 'unsigned int'}.get(t, t)
         if t in BUILTIN:
             return CType(BUILTIN[t], 'void' if t == 'void' else 'scalar')
-        m = re.match(r'^std::array<(.*)>$', t)
+        m = re.match(r'^(?:std::)?array<(.*)>$', t)      # nested template arguments are printed unqualified
         if m:
             a = split_targs(m.group(1))
             el = self._ctype_noref(a[0], tu, node)
